@@ -18,8 +18,8 @@ RULE = ('A case is one generated program (entity diagram + data-building session
         'iteration) on a diagram with relationships; distinct by program hash.')
 ASSUMPTIONS = ['live SQLite (in-memory)', 'reference store vlib/refstore.py', 'identical data are rebuilt per strategy by '
                'replaying the same data-building sessions (deterministic primary keys)']
-SHARDS = {'quick': 4, 'thorough': 16}
-MIN_EVALS = {'quick': 100, 'thorough': 2000}
+SHARDS = {'quick': 8, 'thorough': 16}
+MIN_EVALS = {'quick': 600, 'thorough': 5000}
 
 VARIANTS = [
     ('default', {}),
@@ -43,19 +43,29 @@ def program_strategy():
     read = st.tuples(st.just('read'), st.sampled_from([0, 1, 1, 2, 3, 4, 5, 6, 9, 10, 14, 15, 16, 16, 16, 17, 17]), c, c, c).map(list)
     reads = st.lists(read, min_size=4, max_size=14)
 
-    def combine(prog, rd):
+    # an optional session that mixes reads with collection/reference edits (loads then happen while other changes are
+    # pending), followed by the read-only session that observes the committed outcome
+    edit = st.one_of(st.tuples(st.just('cadd'), c, c, st.integers(0, 31)).map(list),
+                     st.tuples(st.just('crem'), c, c, st.integers(0, 31)).map(list),
+                     st.tuples(st.just('set'), c, c, c).map(list))
+    mixed = st.lists(st.one_of(read, read, edit), min_size=3, max_size=10)
+
+    def combine(prog, mx, rd):
         for s in prog['sessions']:
             s['end'] = 'commit'
+        if mx is not None:
+            prog['sessions'].append({'preload': False, 'ops': mx, 'end': 'commit', 'mixed': True})
         prog['sessions'].append({'preload': False, 'ops': rd, 'end': 'rollback'})
         prog['snap'] = 0
         return prog
-    return st.builds(combine, build, reads)
+    return st.builds(combine, build, st.one_of(st.none(), mixed), reads)
 
 
 def execute(program):
     """returns (message or None, stats)"""
     traces = {}
     builds = {}
+    outcomes = {}
     stats_all = {}
     for name, variant in VARIANTS:
         stats = {}
@@ -69,11 +79,20 @@ def execute(program):
         traces[name] = h.obs
         # the handle -> primary key assignment belongs to the build: objects created in one flush get their automatic ids
         # in an order that depends on object addresses, so two builds may number them differently (not comparable then)
-        builds[name] = [t for t in h.trace] + [sorted((hh, repr(o.get('pk'))) for hh, o in h.model.cur.objs.items())]
+        # the sessions that are compared: the last one, and the mixed session before it if the program has one
+        n_cmp = 2 if len(program['sessions']) >= 2 and program['sessions'][-2].get('mixed') else 1
+        begins = [i for i, t in enumerate(h.trace) if t[0] == '-- session begins']
+        cut = begins[-n_cmp] if len(begins) >= n_cmp else 0
+        builds[name] = [t for t in h.trace[:cut]] + [sorted((hh, repr(o.get('pk'))) for hh, o in h.model.cur.objs.items())]
+        outcomes[name] = [t for t in h.trace[cut:]]
         for k, v in stats.items():
             stats_all[k] = stats_all.get(k, 0) + v
     if any(b != builds['default'] for b in builds.values()):
         return None, dict(stats_all, aborted=1)     # the data-building calls did not behave identically: not comparable
+    for name, oc in outcomes.items():
+        if oc != outcomes['default']:
+            diff = [(a, b) for a, b in zip(outcomes['default'], oc) if a != b][:2]
+            return 'the calls of the compared sessions behave differently under strategy %s than under default: %s' % (name, diff), stats_all
     base = traces['default']
     for name, tr in traces.items():
         if tr != base:
@@ -95,7 +114,7 @@ def run(ctx):
                          'strategies': [v[0] for v in VARIANTS]} if nt else None)
         if msg:
             ctx.fail(program, msg)
-    ctx.run_test(t, dict(program=program_strategy()), max_examples=ctx.scale(60, 1200), name='C23')
+    ctx.run_test(t, dict(program=program_strategy()), max_examples=ctx.scale(150, 1500), name='C23')
 
 
 def replay(case):
